@@ -28,6 +28,33 @@ for dirpath, dirnames, filenames in os.walk(os.path.join(ROOT, PKG)):
         globs = set()
         attr_stored = {}
         first_defs = {}
+        idents = {}
+        returns = {}
+
+        def returns_of(fn_node):
+            """element texts of the returned tuple when every return is a tuple of one shape"""
+            rs = [n for n in ast.walk(fn_node) if isinstance(n, ast.Return) and n.value is not None]
+            shapes = set()
+            for r in rs:
+                if isinstance(r.value, ast.Tuple) and len(r.value.elts) >= 2:
+                    shapes.add(tuple(ast.unparse(e) for e in r.value.elts))
+                else:
+                    return None
+            if len(shapes) == 1:
+                sh = list(shapes.pop())
+                return sh if len(set(sh)) == len(sh) else None
+            return None
+
+        def idents_of(fn_node):
+            out = set()
+            for n in ast.walk(fn_node):
+                if isinstance(n, ast.Name):
+                    out.add(n.id)
+                elif isinstance(n, ast.Attribute):
+                    out.add(n.attr)
+                elif isinstance(n, ast.arg):
+                    out.add(n.arg)
+            return sorted(out)
 
         def first_defs_of(fn_node):
             out = {}
@@ -81,6 +108,9 @@ for dirpath, dirnames, filenames in os.walk(os.path.join(ROOT, PKG)):
             if isinstance(node, (ast.FunctionDef, ast.AsyncFunctionDef)):
                 funcs[key_of(node)] = locals_of(node)
                 first_defs[key_of(node)] = first_defs_of(node)
+                idents[key_of(node)] = idents_of(node)
+                if returns_of(node):
+                    returns[key_of(node)] = returns_of(node)
                 if attr_stored_of(node):
                     attr_stored[key_of(node)] = attr_stored_of(node)
             elif isinstance(node, ast.ClassDef):
@@ -89,6 +119,9 @@ for dirpath, dirnames, filenames in os.walk(os.path.join(ROOT, PKG)):
                     if isinstance(item, (ast.FunctionDef, ast.AsyncFunctionDef)):
                         funcs[f"{node.name}.{key_of(item)}"] = locals_of(item)
                         first_defs[f"{node.name}.{key_of(item)}"] = first_defs_of(item)
+                        idents[f"{node.name}.{key_of(item)}"] = idents_of(item)
+                        if returns_of(item):
+                            returns[f"{node.name}.{key_of(item)}"] = returns_of(item)
                         if attr_stored_of(item):
                             attr_stored[f"{node.name}.{key_of(item)}"] = attr_stored_of(item)
             elif isinstance(node, (ast.Assign, ast.AnnAssign)):
@@ -97,7 +130,7 @@ for dirpath, dirnames, filenames in os.walk(os.path.join(ROOT, PKG)):
                     for n in ast.walk(t):
                         if isinstance(n, ast.Name):
                             globs.add(n.id)
-        out[mod] = {"functions": funcs, "globals": sorted(globs), "attr_stored": attr_stored, "first_defs": first_defs}
+        out[mod] = {"functions": funcs, "globals": sorted(globs), "attr_stored": attr_stored, "first_defs": first_defs, "idents": idents, "returns": returns}
 dst = os.path.join(os.path.dirname(os.path.dirname(os.path.abspath(__file__))), "sa", "vocab.json")
 with open(dst, "w") as fh:
     json.dump(out, fh, indent=0, sort_keys=True)
